@@ -251,7 +251,18 @@ func UseNested(a, b int) int {
 	// says go >= 1.23) as variable, field and parameter type, ranged and pulled
 	alias := fmt.Sprintf(`type IntIt = «Iter[int]»
 
+// an alias of the alias
+type IntIt2 = IntIt
+
 type aliasBox struct{ it IntIt }
+
+func drainAlias2(it IntIt2) int {
+	s := 0
+	for v := range «RANGE(it)» {
+		s = s*7 + v
+	}
+	return s
+}
 
 func drainAlias(it IntIt, stop int) int {
 	s := 0
@@ -273,6 +284,8 @@ func UseAlias(a, b int) int {
 		s = s*7 + v
 	}
 	var rest IntIt = GenViaAlias(GenT([]int{a, b, a + b}, 2), b)
+	var chain IntIt2 = (Rcv{b}).Gen(2)
+	s = s*7 + drainAlias2(GenViaAlias(chain, a))
 	for rest.MoveNext() {
 		s = s*7 + rest.Current()
 	}
@@ -845,6 +858,21 @@ func UsePkgLevel(a, b int) int {
 		setLevel2(g2.Current() + a + 1)
 	}
 	setLevel2(0)
+	// the table is re-written while an iterator is suspended inside its loop over it
+	setTable(0, 4)
+	setTable(1, 5)
+	setTable(2, 6)
+	tb := genTable(a)
+	if tb.MoveNext() {
+		sum = sum*10 + tb.Current()
+	}
+	setTable(1, 50)
+	setTable(2, 60+b)
+	for tb.MoveNext() {
+		sum = sum*10 + tb.Current()
+	}
+	setTable(1, 5)
+	setTable(2, 6)
 	return vrt.V(%[14]d, sum)
 }
 
@@ -1056,6 +1084,17 @@ func genLevelFirst() «Iter[int]» {
 	return nil
 }
 
+// pkgTable: an unexported package-level ARRAY declared here and written only from a plain
+// file; a range with a value variable iterates over a copy taken when the loop starts
+var pkgTable = [3]int{4, 5, 6}
+
+func genTable(k int) «Iter[int]» {
+	for i, v := range pkgTable {
+		«Yield»(v*10 + i + k)
+	}
+	return nil
+}
+
 // pkgLevel2 is declared HERE, in a rewritten file, but written only from a plain file
 var pkgLevel2 int
 
@@ -1199,6 +1238,7 @@ func OptDelay(a, b int) (_ «Iter[int]») {
 		"func optFrames(f frame, n int) «Iter[frame]» {\n", "func optFrames(f frame, n int) «Iter[frame]» {\n\treturn refco.Go(func(ʏ *refco.Y[frame]) {\n",
 		"func optArrs(p [2]int, n int) «Iter[[2]int]» {\n", "func optArrs(p [2]int, n int) «Iter[[2]int]» {\n\treturn refco.Go(func(ʏ *refco.Y[[2]int]) {\n",
 		"func genLevels(n int) «Iter[int]» {\n", "func genLevels(n int) «Iter[int]» {\n\treturn refco.Go(func(ʏ *refco.Y[int]) {\n",
+		"func genTable(k int) «Iter[int]» {\n", "func genTable(k int) «Iter[int]» {\n\treturn refco.Go(func(ʏ *refco.Y[int]) {\n",
 		"func genLevels2(n int) «Iter[int]» {\n", "func genLevels2(n int) «Iter[int]» {\n\treturn refco.Go(func(ʏ *refco.Y[int]) {\n",
 		"func genLevelFirst() «Iter[int]» {\n", "func genLevelFirst() «Iter[int]» {\n\treturn refco.Go(func(ʏ *refco.Y[int]) {\n",
 		"func genLevelAfter(first bool) «Iter[int]» {\n", "func genLevelAfter(first bool) «Iter[int]» {\n\treturn refco.Go(func(ʏ *refco.Y[int]) {\n",
@@ -1241,7 +1281,7 @@ func OptDelay(a, b int) (_ «Iter[int]») {
 		mk("ByImportInSignature", false, "import_mentioned_only_by_the_signature_of_a_reducible_literal"),
 		mk("UseFrames", false, "yield_of_by_value_struct_and_array_parameters_written_through_fields"),
 	}
-	plain = []string{"// the only writer of pkgLevel2 (declared in a rewritten file) lives in this plain file\nfunc setLevel2(n int) { pkgLevel2 = n }\n"}
+	plain = []string{"// the only writers of pkgLevel2 and pkgTable (declared in a rewritten file) live in this plain file\nfunc setLevel2(n int) { pkgLevel2 = n }\n\nfunc setTable(i, v int) { pkgTable[i] = v }\n"}
 	return
 }
 
